@@ -32,8 +32,8 @@ CHECKS["C24"] = ("exploration", "model-based monitor of endpoint selection (inde
     "lists without nil entries", "3/C24")
 
 CHECKS["C07"] = ("exploration", "in-process chunking round-trip monitor on the real sender and receiver code paths (detached channel instances)",
-    "Real newMessage/EncodeChunks/signAndEncrypt on one instance, real verifyAndDecrypt/mergeChunks/DecodeService on a mirrored one, for every policy and mode over generated chunk sizes, body lengths around multiples of the maximum and sequence numbers near the wrap; per-chunk invariants and byte-equal reassembly.",
-    "uses the verif hook wrappers (EncodeAndSecure repeats the writeMessageChunks loop without the socket); RSA key sizes are exercised by the OPN part of C08 and by C37", "3/C07")
+    "Real newMessage/EncodeChunks/signAndEncrypt on one instance, real verifyAndDecrypt/mergeChunks/DecodeService on a mirrored one, for every policy and mode over generated chunk sizes, body lengths around multiples of the maximum and sequence numbers near the wrap; per-chunk invariants and byte-equal reassembly. OPN request and response chunks travel between a gopcua instance with the sender's asymmetric algorithm and one with the receiver's for every pair of allowed RSA key sizes.",
+    "uses the verif hook wrappers (EncodeAndSecure repeats the writeMessageChunks loop without the socket); live channels with mixed key sizes are part of C37", "3/C07")
 CHECKS["C08"] = ("exploration", "differential monitor against an independent implementation of the Part 6 chunk layout (refpeer)",
     "Chunks secured by gopcua must open in refpeer to the same plaintext and chunks sealed by refpeer in every conforming variation must open in gopcua, for MSG under all policies/modes and OPN under every allowed RSA key size pair, both directions.",
     "refpeer written from the specification; shares only Go crypto stdlib with gopcua", "3/C08")
@@ -41,8 +41,8 @@ CHECKS["C09"] = ("exploration", "tamper monitor: exhaustive single-byte, truncat
     "Every mutated chunk must be rejected without panic; valid chunk as control.",
     "delivery observed at verifyAndDecrypt of a detached instance (hook); server-side effect covered by C10/C29 workloads", "3/C09")
 CHECKS["C38"] = ("exploration", "dense chunk-size sweep monitor of SetMaximumBodySize against the real encoder and independent layout arithmetic",
-    "Every chunk size in a dense range from the protocol minimum plus log-spaced/random sizes to 2^24, all symmetric policies and modes: the maximal body fits, is block aligned, matches the layout arithmetic, and max+1 does not fit in SignAndEncrypt.",
-    "chunk sizes above the dense range are sampled", "3/C38")
+    "Every chunk size in a dense range from the protocol minimum plus log-spaced/random sizes to 2^24, all symmetric policies and modes: the maximal body fits, is block aligned, matches the layout arithmetic, and max+1 does not fit in SignAndEncrypt; sampled bodies of k x maximum + 1 go through the real split. A live part opens real client channels and real server channels (a third renewed first, different buffers in the two directions) and lets the independent peer report length and body bytes of every chunk of a three-chunk message: each fits, and one more body byte than an intermediate chunk carries would not.",
+    "chunk sizes above the dense range are sampled; the live part uses 2048-bit keys", "3/C38")
 
 CHECKS["C18"] = ("exploration", "exactly-once request/response matching monitor over a call/return log with unique nonces against a scripted reordering/dropping/duplicating server",
     "Concurrent callers on one channel (opcua.Client and bare uasc with request ids near 2^32) against the independent scripted server; every successful call must return its own nonce, no nonce twice, wrong-typed responses and an echoed request must be errors.",
@@ -68,7 +68,7 @@ CHECKS["C35"] = ("exploration", "session-enforcement monitor: every registered r
     "discovery and session-establishment services are exempt as the property states", "3/C35")
 
 CHECKS["C30"] = ("exploration", "configuration-sweep monitor: independent scripted client tries every policy/mode (and unsupported combinations, and mode-switching renewals) against real servers configured with subsets of the supported pairs; model oracle established <=> configured; advertised = configured",
-    "Real servers with singleton, pair and random subsets of the 11 supported policy/mode pairs; for each, 25 OpenSecureChannel attempts by the independent peer, a renewal asking for the other mode, GetEndpoints, and real opcua.Client connects; a channel must be established exactly for configured pairs and the advertised endpoints must equal the configured pairs.",
+    "Real servers with singleton, pair and random subsets of the 11 supported policy/mode pairs; for each, 25 OpenSecureChannel attempts by the independent peer, a renewal asking for the other mode, the same request sent as a MSG typed message of the open channel, GetEndpoints, and real opcua.Client connects; a channel must be established exactly for configured pairs and the advertised endpoints must equal the configured pairs.",
     "servers without any EnableSecurity option are outside the quantifier (pinned tests require None/None there)", "3/C30")
 CHECKS["C37"] = ("exploration", "interoperability matrix monitor: real client against real server for every cell of policy x mode x server key x client key x token type, write/read-back oracle incl. multi-chunk values",
     "Each cell starts a real server enabling only that configuration, discovers and selects the advertised endpoint with a real client, connects, activates with an anonymous or username token, writes and reads back a scalar and a 150 kB ByteString. The quick tier adds two cells per policy with keys on different sides of 2048 bits; both tiers run a user-name session over the None endpoint of a server that also enables a secured policy. Thorough runs the complete finite matrix.",
@@ -95,7 +95,7 @@ CHECKS["C10"] = ("exploration", "replay monitor: verbatim copies (single and run
     "The independent client holds a Sign / SignAndEncrypt session on the real server, writes unique values and re-sends byte-identical copies of earlier Write chunks at random positions; the node value (inspected in-process) must never return to a replayed value and no request may be answered twice; variants: the client's numbering starts shortly before the end of its range and wraps to 0 inside the history (chunks from before the wrap and the chunk numbered 0 are replayed), a token renewal right before the replay. The scripted server replays earlier response chunks to the real client.",
     "a server that gives up the channel after a replay is accepted", "3/C10")
 CHECKS["C11"] = ("exploration", "arrival-order sequence monitor at the decrypting independent peer under concurrent senders, renewals and hook-point delays (incl. a sender parked across a renewal), both directions, counters placed just below the wrap",
-    "Concurrent senders on one real client-kind channel with explicit renewals against the scripted server, and the real server's read/publish responses against the renewing independent client; the peer's arrival-order log must show +1 per chunk (or the wrap) and no interleaving of multi-chunk messages. A quarter of the client histories add hazards: requests refused as too large or cancelled before sending, a renewal that gets no answer, a second caller of Renew. Evidence lists hook-point hits and runs with a sender parked across a renewal.",
+    "Concurrent senders on one real client-kind channel with explicit renewals against the scripted server, and the real server's read/publish responses against the renewing independent client; the peer's arrival-order log must show +1 per chunk (or the wrap) and no interleaving of multi-chunk messages. A quarter of the client histories add hazards: requests refused as too large or cancelled before sending, callers that give up between the chunks of a request, a renewal that gets no answer, a second caller of Renew. Evidence lists hook-point hits and runs with a sender parked across a renewal.",
     "arrival order on a TCP connection = order of writes; hook delays only at points where pre-emption is possible anyway", "3/C11")
 
 CHECKS["C06"] = ("exploration", "wire-observing limit monitor: the independent peer on one side of the connection sees every chunk gopcua writes and sends the largest chunks/messages it is entitled to, over a grid of asymmetric buffer sizes and message limits, gopcua in client role, server role and as stock server",
@@ -110,7 +110,7 @@ CHECKS["C36"] = ("exploration", "Go race detector (-race build of the worker and
     "sees only executed interleavings; socket I/O between two accesses hides races (compensated by the fan-out rounds and hook delays)", "3/C36")
 
 CHECKS["C19"] = ("exploration", "timeout monitor with forced hand-over races: scripted server withholding / timing answers, hook points parking the timed-out caller and the dispatcher, heartbeat-counted durations, pending-slot accessor and post-scenario delivery oracle",
-    "Withheld answers, answers within +-20 ms of the caller's timer, forced races (caller parked after its timer fired or its context ended, then the answer arrives; dispatcher parked after taking the handler; the same for a renewal's OpenSecureChannel answer) requests cancelled before they were written, and a renewal whose answer is withheld for good; un-forced calls must return within 3 x (timeout + leniency) heartbeats, nothing may stay blocked, no handler slot may remain and 10 later requests must still complete.",
+    "Withheld answers, answers within +-20 ms of the caller's timer, forced races (caller parked after its timer fired or its context ended, then the answer arrives; dispatcher parked after taking the handler; the same for a renewal's OpenSecureChannel answer) requests cancelled before they were written followed by a renewal, a renewal whose answer is withheld for good, and a request of many chunks to a peer that has stopped reading; un-forced calls must return within 3 x (timeout + leniency) heartbeats, nothing may stay blocked, no handler slot may remain and 10 later requests must still complete.",
     "heartbeat clock (<= elapsed ms); hook points only between critical sections", "3/C19")
 
 CHECKS["C16"] = ("exploration", "renewal monitor: scripted server with short revised lifetimes stamping issue/renewal events one-sidedly, concurrent callers with hook delays; independent client renewing against the real server under publish traffic incl. requests under the previous token",
